@@ -109,6 +109,8 @@ type Net struct {
 	Stats     map[string]int
 	ephemeral int
 	UnixSink  map[string][]UnixWrite
+	// UnixFailNext: the next n writes to the path fail with ECONNREFUSED
+	UnixFailNext map[string]int
 	UnixOpen  map[string]bool
 }
 
@@ -120,7 +122,7 @@ type UnixWrite struct {
 
 func newNet(w *World) *Net {
 	return &Net{w: w, peers: map[string]func(string, []byte){}, down: map[string]bool{}, Stats: map[string]int{},
-		ephemeral: 50000, UnixSink: map[string][]UnixWrite{}, UnixOpen: map[string]bool{},
+		ephemeral: 50000, UnixSink: map[string][]UnixWrite{}, UnixFailNext: map[string]int{}, UnixOpen: map[string]bool{},
 		ToAgent: NetFaults{LatMin: 200 * time.Microsecond}, FromAgent: NetFaults{LatMin: 200 * time.Microsecond}}
 }
 
@@ -537,6 +539,14 @@ func (c *UnixConn) Write(b []byte) (int, error) {
 		w := W
 		if sk.closed {
 			code = eClosed
+			return
+		}
+		if w.Net.UnixFailNext[path] > 0 {
+			// the peer of the unix socket is not reading for a moment (restart): ECONNREFUSED
+			w.Net.UnixFailNext[path]--
+			w.Net.Stats["unix-write-failed"]++
+			w.Sim.Logf("unix tx %s fails", path)
+			code = eRefused
 			return
 		}
 		w.Sim.Logf("unix tx %s %d", path, len(data))
